@@ -126,6 +126,8 @@ def handleC14 : List String → Option String
     let b := showExcept (fun _ => "-") (rawChunksToChunks cs >>= Strax.continuityCheck)
     pure (if a == b then a else s!"models-disagree {a} / {b}")
   | "c14.splitruns" :: rest => handleC07 ("splitruns" :: rest)
+  -- round 5: the `subruns` setter of `Chunk.__init__` (order by (start, end), overlap test) on a dict given in any order
+  | "c14.mkchunk" :: rest => handleC07 ("mkchunk" :: rest)
   | _ => none
 
 end Strax.Driver
